@@ -19,6 +19,7 @@ var _ = math.Min
 func old[T any](x T) T          { return x }
 func implies(a, b bool) bool    { return !a || b }
 func unchanged[T any](x T) bool { return true }
+func isNew[T any](x T) bool     { return true }
 func ite[T any](c bool, a, b T) T {
 	if c {
 		return a
@@ -248,3 +249,66 @@ func feq(a, b float64) bool { return math.Float64bits(a) == math.Float64bits(b) 
 //@ func rtxTimer.close
 //@   ensures#closed t.state == rtxTimerClosed
 //@   tags C19
+
+// ---- byte-order readers used by the wire contracts ----
+
+func specBE16(b []byte, o int) uint16 { return uint16(b[o])<<8 | uint16(b[o+1]) }
+func specBE32(b []byte, o int) uint32 {
+	return uint32(b[o])<<24 | uint32(b[o+1])<<16 | uint32(b[o+2])<<8 | uint32(b[o+3])
+}
+func specLE32(b []byte, o int) uint32 {
+	return uint32(b[o]) | uint32(b[o+1])<<8 | uint32(b[o+2])<<16 | uint32(b[o+3])<<24
+}
+
+// ---- C13: checksum rules (CRC32c itself is an uninterpreted function of the covered bytes) ----
+
+//@ func generatePacketChecksum
+//@   inline
+//@   requires#len len(raw) >= 12
+//@   modifies nothing
+//@   tags C13
+//@   safety C03
+
+//@ func packet.unmarshal
+//@   ensures#verify result == nil ==> len(raw) >= 12 && (old(specLE32(raw, 8) == generatePacketChecksum(raw)) ||
+//@      (old(specLE32(raw, 8)) == 0 && !doChecksum && !(len(raw) >= 16 && (old(raw[12]) == 1 || old(raw[12]) == 10))))
+//@   tags C13
+
+//@ func packet.marshal
+//@   assume#chunks-non-nil forall i int :: 0 <= i && i < len(p.chunks) ==> p.chunks[i] != nil
+//@   loop 1 invariant#hdr len(raw) >= 12 && isNew(raw)
+//@   ensures#crc result1 == nil && doChecksum ==> len(result0) >= 12 && specLE32(result0, 8) == generatePacketChecksum(result0)
+//@   tags C13
+//@   safety C03
+
+func typeIs[T any](x any, _ T) bool { return true }
+
+//@ writers{C13} Association.sendZeroChecksum : Association.setSendZeroChecksum, Association.handleInit, Association.handleInitAck
+//@ writers{C13} Association.recvZeroChecksum : createAssociationFromConfigWithTsn
+
+//@ func Association.setSendZeroChecksum
+//@   at store Association.sendZeroChecksum assert#dtls-only{C13} stored == (zeroChecksum.edmid == 1)
+//@ func Association.handleInit
+//@   at store Association.sendZeroChecksum assert#dtls-only{C13} stored == (val.edmid == 1)
+//@ func Association.handleInitAck
+//@   at store Association.sendZeroChecksum assert#dtls-only{C13} stored == (val.edmid == 1)
+
+//@ func chunkMandatoryChecksum
+//@   loop 1 invariant#none-so-far forall j int :: 0 <= j && j < rangeIdx && j < len(cc) ==> !typeIs(cc[j], (*chunkInit)(nil)) && !typeIs(cc[j], (*chunkCookieEcho)(nil))
+//@   ensures#finds !result ==> forall j int :: 0 <= j && j < len(cc) ==> !typeIs(cc[j], (*chunkInit)(nil)) && !typeIs(cc[j], (*chunkCookieEcho)(nil))
+//@   modifies nothing
+//@   tags C13
+//@   safety C03
+
+//@ func Association.marshalPacket
+//@   at call packet.marshal assert#crc-unless-negotiated{C13} arg1 || a.sendZeroChecksum
+//@   at call packet.marshal assert#crc-for-init-and-cookie-echo{C13} !arg1 ==> forall j int :: 0 <= j && j < len(p.chunks) ==> !typeIs(p.chunks[j], (*chunkInit)(nil)) && !typeIs(p.chunks[j], (*chunkCookieEcho)(nil))
+
+//@ func Association.unmarshalPacket
+//@   at call packet.unmarshal assert#verify-unless-accepted{C13} arg1 == !a.recvZeroChecksum
+//@   ensures#verify{C13} result1 == nil ==> len(raw) >= 12 && (old(specLE32(raw, 8) == generatePacketChecksum(raw)) ||
+//@      (old(specLE32(raw, 8)) == 0 && a.recvZeroChecksum && !(len(raw) >= 16 && (old(raw[12]) == 1 || old(raw[12]) == 10))))
+
+//@ func Association.handleInbound
+//@   at call Association.handleChunksStart assert#only-verified-packets{C13} err == nil
+//@   at call Association.handleChunk assert#only-verified-packets2{C13} err == nil
